@@ -471,23 +471,39 @@ func (b *backendPlaySessionHandler) handleAvailableCommands(p *packet.AvailableC
 }
 
 func filterNode(src brigodier.CommandNode, cmdSrc command.Source) brigodier.CommandNode {
+	return filterNodeSeen(src, cmdSrc, map[brigodier.CommandNode]brigodier.CommandNode{})
+}
+
+// filterNodeSeen copies the nodes usable by cmdSrc. seen maps every source node already
+// visited to its copy (nil if hidden), so that a node is copied once and redirects that lead
+// back into the tree (e.g. "run" redirecting to the dispatcher root) terminate.
+func filterNodeSeen(
+	src brigodier.CommandNode,
+	cmdSrc command.Source,
+	seen map[brigodier.CommandNode]brigodier.CommandNode,
+) brigodier.CommandNode {
+	if dest, ok := seen[src]; ok {
+		return dest
+	}
 	var dest brigodier.CommandNode
 	_, ok := src.(*brigodier.RootCommandNode)
 	if ok {
 		dest = &brigodier.RootCommandNode{}
 	} else {
 		if !src.CanUse(command.ContextWithSource(context.Background(), cmdSrc)) {
+			seen[src] = nil
 			return nil
 		}
 		builder := src.CreateBuilder().Requires(func(context.Context) bool { return true })
 		if src.Redirect() != nil {
-			builder.Redirect(filterNode(src.Redirect(), cmdSrc))
+			builder.Redirect(filterNodeSeen(src.Redirect(), cmdSrc, seen))
 		}
 		dest = builder.Build()
 	}
+	seen[src] = dest
 
 	src.ChildrenOrdered().Range(func(_ string, sourceChild brigodier.CommandNode) bool {
-		destChild := filterNode(sourceChild, cmdSrc)
+		destChild := filterNodeSeen(sourceChild, cmdSrc, seen)
 		if destChild != nil {
 			dest.AddChild(destChild)
 		}
